@@ -191,8 +191,8 @@ def stable_const(name, salt=0):
 
 def random_toy(rng, kmax=12):
     k = rng.randrange(3, kmax + 1)
-    nind = rng.choice([1, 2, 3, 4])
-    d = rng.choice([1, 2])
+    nind = rng.choice([1, 2, 3, 4, 4, 6])
+    d = rng.choice([1, 2, 2, 3])
     # half of the toy graphs use one fixed pool of names: different structures over the same variable names are built in
     # the same interpreter (anything remembered per name set rather than per definition would be served to the wrong graph)
     if rng.random() < 0.5:
@@ -232,20 +232,8 @@ def shadow_of_model(env, model_name, kw, nind=3, d=2):
     dag = env["VariablesDAG"].from_dict(m.get_variables_specs())
     ind_level = set()
     try:
-        if model_name == "joint":
-            df = pd.read_csv(core.REPO / "tests/_data/data_mock/data_tiny_joint.csv", sep=";")
-            df = df[["ID", "TIME", "EVENT_TIME", "EVENT_BOOL"] + [c for c in df.columns if c.startswith("Y")][: kw.get("dimension", 1)]]
-            data = Data.from_dataframe(df, "joint")
-        else:
-            df = pd.read_csv(core.REPO / "tests/_data/data_mock/multivariate_data.csv")
-            df = df[["ID", "TIME"] + list(df.columns[2: 2 + kw.get("dimension", 3)])]
-            data = Data.from_dataframe(df)
-        ds = Dataset(data)
+        m, st, ds = real_state(env, model_name, kw)
         with core.quiet():
-            m.initialize(ds)
-            st = m.state
-            m.put_data_variables(st, ds)
-            m.put_individual_parameters(st, ds)
             st.precompute_all()
         n_ind = ds.n_individuals
         for k, v in st._values.items():
@@ -286,6 +274,19 @@ class Runner:
         self.ops, self.outs, self.fails = [], [], []
         self.tags = {}
         self.fork_info = {0: None}  # sid -> (node, set of names cached in fork) ghost, only used for generation
+        # which public accessor / container / layout an op went through (several spell the same model op): logged per op
+        # index so that a replay of the request line goes through the very same entry points
+        self.picks, self.forced = {}, None
+
+    def pick(self, choices):
+        at = str(len(self.ops))
+        done = len(self.picks.get(at, []))
+        if self.forced is not None and len(self.forced.get(at, [])) > done and self.forced[at][done] < len(choices):
+            c = self.forced[at][done]
+        else:
+            c = self.rng.randrange(len(choices))
+        self.picks.setdefault(at, []).append(c)
+        return choices[c]
 
     # ---- helpers
     def indep_of(self, sid):
@@ -318,26 +319,67 @@ class Runner:
             return (f"e:other:{type(e).__name__}", None)
 
     # ---- operations
-    def op_get(self, sid, name):
+    def rank_of(self, name):
+        """rank of a variable; a name that is not a variable gets the first rank outside the graph"""
+        return self.sh.rank.get(name, len(self.sh.names))
+
+    def op_get(self, sid, name, api=None):
         st = self.states[sid]
-        want = self.sh.eval_from_scratch(self.indep_of(sid))[name]
-        # the same read through the different public accessors of State (all must agree with the from-scratch value)
-        api = self.rng.choice(["item", "item", "item", "tensor", "tensors", "aslists"])
+        known = name in self.sh.by_name
+        want = self.sh.eval_from_scratch(self.indep_of(sid))[name] if known else None
+        # the same read through the different public accessors of State (all must agree with the from-scratch value),
+        # including the accessors State inherits from MutableMapping
+        if api is None:
+            api = self.pick(["item", "item", "item", "tensor", "tensors", "aslists", "mapping-get", "setdefault", "values-of"])
+        if not known and api in ("aslists", "values-of"):
+            api = "item"
+        sentinel = object()
         if api == "item":
             status, v = self.call(lambda: st[name])
         elif api == "tensor":
             status, v = self.call(lambda: st.get_tensor_value(name))
         elif api == "tensors":
             status, v = self.call(lambda: st.get_tensor_values([name])[0])
+        elif api == "mapping-get":
+            # Mapping.get(key, default): the default is for keys that do not exist (KeyError), never for a value that can not
+            # be computed - and State reports even unknown names as an input error
+            status, v = self.call(lambda: st.get(name, sentinel))
+            if status == "ok" and v is sentinel:
+                self.fails.append(f"read of '{name}' through Mapping.get was answered with the caller's default")
+                status = "e:other:default"
+        elif api == "setdefault":
+            # MutableMapping.setdefault: returns the value when it can be read, and must never assign otherwise
+            dflt = rows_tensor(self.env["torch"], self.random_value(name), self.sh.level[name]) if known else self.env["torch"].zeros(1)
+            status, v = self.call(lambda: st.setdefault(name, dflt))
+            if status == "ok" and v is dflt:
+                self.fails.append(f"read of '{name}' through setdefault was answered with (and assigned) the caller's default")
+                status = "e:other:default"
+        elif api == "values-of":
+            # ItemsView / ValuesView of the mapping: positional read
+            def _nth():
+                for k, val in st.items():
+                    if k == name:
+                        return val
+                raise KeyError(name)
+            # the views read every variable before `name` in the iteration order: only usable when those reads are no-ops,
+            # i.e. everything before is cached; otherwise fall back to the plain accessor
+            order = list(st._values)
+            before = order[: order.index(name)]
+            if all(st._values[k] is not None for k in before):
+                status, v = self.call(_nth)
+            else:
+                api = "item"
+                status, v = self.call(lambda: st[name])
         else:
             status, v = self.call(lambda: _from_lists(self.env["torch"], name, st._get_value_as_dict_of_lists(name), self.sh.level[name]))
         self.tag("get-" + api)
-        r = self.sh.rank[name]
+        r = self.rank_of(name)
         if status == "ok":
             rows = to_rows(v)
             out = "v=" + fmt_rows(rows)
             if want is None:
-                self.fails.append(f"read of '{name}' answered {rows} although an independent value it needs is unset")
+                self.fails.append(f"read of '{name}' answered {rows} although " +
+                                  ("an independent value it needs is unset" if known else "it is not a variable of the graph"))
             elif rows != want:
                 self.fails.append(f"stale read of '{name}': got {rows}, from scratch {want}")
         else:
@@ -345,61 +387,196 @@ class Runner:
             if want is not None:
                 self.fails.append(f"read of '{name}' failed with {status} although every needed value is set")
             elif status != "e:input":
-                self.fails.append(f"read of '{name}' needing an unset value reported {status}, not an input error")
+                self.fails.append(f"read of '{name}' " + ("needing an unset value" if known else "(not a variable)") +
+                                  f" reported {status}, not an input error")
         self.record(f"g:{sid}:{r}", sid, out)
         self.tag("get")
+        if not known:
+            self.tag("unknown-name")
 
     def op_isset(self, sid, name):
         st = self.states[sid]
         status, v = self.call(lambda: st.is_variable_set(name))
-        self.record(f"q:{sid}:{self.sh.rank[name]}", sid, f"b={int(bool(v))}" if status == "ok" else status)
+        if name not in self.sh.by_name and status != "e:input":
+            self.fails.append(f"is_variable_set('{name}') (not a variable) gave {status}, not an input error")
+        if name in self.sh.by_name and (status != "ok" or bool(v) != (st._values[name] is not None)):
+            self.fails.append(f"is_variable_set('{name}') gave {status}:{v}")
+        self.record(f"q:{sid}:{self.rank_of(name)}", sid, f"b={int(bool(v))}" if status == "ok" else status)
         self.tag("isset")
 
-    def op_set(self, sid, name, rows):
+    def op_areset(self, sid, names):
+        """are_variables_set(names) == all(is_variable_set(n)) (each one recorded as its own query)"""
+        st = self.states[sid]
+        status, v = self.call(lambda: st.are_variables_set(tuple(names)))
+        each = [st._values[n] is not None for n in names]
+        if status != "ok" or bool(v) != all(each):
+            self.fails.append(f"are_variables_set({names}) gave {status}:{v}, individual answers {each}")
+        for n in names:
+            self.op_isset(sid, n)
+        self.tag("areset")
+
+    def op_contains(self, sid, name):
+        """`name in state`, len(state), iteration: the graph's variables, whatever is cached (no model op: nothing may change)"""
+        st = self.states[sid]
+        status, v = self.call(lambda: (name in st, len(st), sorted(st), sorted(st.keys())))
+        want = (name in self.sh.by_name, len(self.sh.names), list(self.sh.names), list(self.sh.names))
+        if status != "ok" or v != want:
+            self.fails.append(f"`'{name}' in state` / len / iteration gave {status}:{v if status != 'ok' else (v[0], v[1])}")
+        self.tag("contains")
+
+    def op_set(self, sid, name, rows, how=None):
         torch = self.env["torch"]
         st = self.states[sid]
-        val = None if rows is None else rows_tensor(torch, rows, self.sh.level[name])
-        status, _ = self.call(lambda: st.__setitem__(name, val))
-        settable = self.sh.by_name[name].kind == "s"
+        known = name in self.sh.by_name
+        val = None if rows is None else (rows_tensor(torch, rows, self.sh.level[name]) if known else torch.tensor(rows[0]))
+        if how is None:
+            how = self.pick(["item", "item", "put", "update"] if val is not None else ["item", "item", "put"])
+        before_values = self.snapshot(sid)[0]
+        if how == "item":
+            status, _ = self.call(lambda: st.__setitem__(name, val))
+        elif how == "put":
+            # put without indices and without accumulation is a plain assignment
+            status, _ = self.call(lambda: st.put(name, val))
+        else:
+            # MutableMapping.update: assignments in the order of the given mapping
+            status, _ = self.call(lambda: st.update({name: val}))
+        self.tag("set-via-" + how)
+        settable = known and self.sh.by_name[name].kind == "s"
+        if settable and status == "ok":
+            self.check_fork(sid, name, before_values)
+            got = st._values[name]
+            if (None if got is None else to_rows(got)) != rows:
+                self.fails.append(f"after the assignment of '{name}' the state holds {None if got is None else to_rows(got)}, not the assigned {rows}")
         if settable and status != "ok":
             self.fails.append(f"assignment of settable '{name}' failed: {status}")
         if not settable and status != "e:input":
             self.fails.append(f"assignment of non-settable '{name}' gave {status}")
-        self.record(f"s:{sid}:{self.sh.rank[name]}:{'none' if rows is None else fmt_rows(rows)}", sid, status)
+        self.record(f"s:{sid}:{self.rank_of(name)}:{'none' if rows is None else fmt_rows(rows)}", sid, status)
         self.tag("set" if rows is not None else "set-none")
 
-    def op_put_idx(self, sid, name, acc):
-        torch = self.env["torch"]
-        st = self.states[sid]
+    def op_put_idx(self, sid, name, acc, shape=None):
+        """indexed put.  shape: "cells" = any list of coordinates (possibly repeated when accumulating), "cell" = one coordinate
+        given as plain integers (what the Gibbs population sampler passes), "row" = a PARTIAL index (one leading integer, the
+        value is a whole row: the FastGibbs form)."""
         lv = self.sh.level[name]
         nrows = self.sh.nind if lv == "i" else 1
         cells = [(r, c) for r in range(nrows) for c in range(self.sh.d)]
-        k = self.rng.randrange(1, len(cells) + 1)
-        chosen = self.rng.sample(cells, k)
-        if acc and self.rng.random() < 0.3:
-            chosen.append(self.rng.choice(chosen))  # duplicate index, well-defined when accumulating
-        vals = [self.rng.randrange(0, 1000) for _ in chosen]
-        rows_i = [r for r, _ in chosen]
-        cols_i = [c for _, c in chosen]
-        if lv == "i":
-            indices = (rows_i, cols_i)
+        if shape is None:
+            shape = self.rng.choice(["cells", "cells", "cell", "row"])
+        if shape == "row" and lv != "i":
+            shape = "cell"
+        if shape == "cells":
+            k = self.rng.randrange(1, len(cells) + 1)
+            chosen = self.rng.sample(cells, k)
+            if acc and self.rng.random() < 0.3:
+                chosen.append(self.rng.choice(chosen))  # duplicate index, well-defined when accumulating
+        elif shape == "cell":
+            chosen = [self.rng.choice(cells)]
         else:
-            indices = (cols_i,)
-        status, _ = self.call(lambda: st.put(name, torch.tensor(vals, dtype=torch.int64), indices=indices, accumulate=acc))
-        self.record(f"p:{sid}:{self.sh.rank[name]}:{int(acc)}:{','.join(map(str, rows_i))}:{','.join(map(str, cols_i))}:{','.join(map(str, vals))}", sid, status)
+            r = self.rng.randrange(nrows)
+            chosen = [(r, c) for c in range(self.sh.d)]
+        vals = [self.rng.randrange(0, 1000) for _ in chosen]
+        if acc and self.rng.random() < 0.15:
+            vals = [0 for _ in chosen]
+        self.do_put_idx(sid, name, acc, [r for r, _ in chosen], [c for _, c in chosen], vals, shape)
+
+    def do_put_idx(self, sid, name, acc, rows_i, cols_i, vals, shape="cells"):
+        torch = self.env["torch"]
+        import numpy as np
+        st = self.states[sid]
+        lv = self.sh.level.get(name, "p")
+        single = len(vals) == 1
+        is_row = (lv == "i" and len(vals) == self.sh.d and len(set(rows_i)) == 1 and cols_i == list(range(self.sh.d)))
+        forms = ["lists", "lists", "arrays", "tensors"]
+        if single:
+            forms += ["ints", "ints", "npints"]
+        if is_row:
+            forms += ["rowint", "rowint", "rowlist"]
+        form = self.pick(forms)
+        value = torch.tensor(vals, dtype=torch.int64)
+        if form in ("ints", "npints"):
+            cast = int if form == "ints" else np.int64
+            indices = (cast(rows_i[0]), cast(cols_i[0])) if lv == "i" else (cast(cols_i[0]),)
+            value = value[0]        # 0-d value, as the samplers give (torch refuses a (1,) value for a 0-d indexing result)
+        elif form == "rowint":
+            indices = (rows_i[0],)
+        elif form == "rowlist":
+            indices = ([rows_i[0]],)
+            value = value[None, :]
+        else:
+            conv = {"lists": list, "arrays": lambda x: np.array(x, dtype=np.int64), "tensors": lambda x: torch.tensor(x, dtype=torch.int64)}[form]
+            indices = (conv(rows_i), conv(cols_i)) if lv == "i" else (conv(cols_i),)
+        self.tag("put-form-" + form)
+        cur = st._values.get(name)
+        settable = name in self.sh.by_name and self.sh.by_name[name].kind == "s"
+        expect = None
+        if settable and cur is not None:
+            expect = [list(r) for r in to_rows(cur)]
+            for r, c, v in zip(rows_i if lv == "i" else [0] * len(vals), cols_i, vals):
+                expect[r][c] = expect[r][c] + v if acc else v
+        before_values = self.snapshot(sid)[0]
+        status, _ = self.call(lambda: st.put(name, value, indices=indices, accumulate=acc))
+        if settable:
+            self.check_written(sid, name, expect, status, "indexed put")
+            if status == "ok":
+                self.check_fork(sid, name, before_values)
+        self.record(f"p:{sid}:{self.rank_of(name)}:{int(acc)}:{','.join(map(str, rows_i))}:{','.join(map(str, cols_i))}:{','.join(map(str, vals))}", sid, status)
         self.tag("put-idx-acc" if acc else "put-idx")
 
     def op_put_acc(self, sid, name, rows=None):
         torch = self.env["torch"]
         st = self.states[sid]
+        known = name in self.sh.by_name
         if rows is None:
-            rows = self.random_value(name)
+            rows = self.random_value(name) if known else [[0]]
             if self.rng.random() < 0.15:
                 rows = [[0] * len(r) for r in rows]      # adding zero is still an assignment (fork, reset of the children)
-        val = rows_tensor(torch, rows, self.sh.level[name])
+        val = rows_tensor(torch, rows, self.sh.level[name]) if known else torch.tensor(rows[0])
+        cur = st._values.get(name)
+        settable = known and self.sh.by_name[name].kind == "s"
+        expect = None if (cur is None or not settable) else [[a + b for a, b in zip(ra, rb)] for ra, rb in zip(to_rows(cur), rows)]
+        before_values = self.snapshot(sid)[0]
         status, _ = self.call(lambda: st.put(name, val, accumulate=True))
-        self.record(f"pa:{sid}:{self.sh.rank[name]}:{fmt_rows(rows)}", sid, status)
+        if settable:
+            self.check_written(sid, name, expect, status, "accumulating put")
+            if status == "ok":
+                self.check_fork(sid, name, before_values)
+        if not known and status != "e:input":
+            self.fails.append(f"put on '{name}' (not a variable) gave {status}, not an input error")
+        self.record(f"pa:{sid}:{self.rank_of(name)}:{fmt_rows(rows)}", sid, status)
         self.tag("put-acc")
+
+    def check_fork(self, sid, name, before_values):
+        """right after a successful assignment of `name`: with auto-fork on, the snapshot holds the assigned variable first and
+        every one of its descendants, with the values they had just before (None where nothing was cached); with auto-fork off
+        there is no snapshot at all"""
+        st = self.states[sid]
+        fk = st._last_fork
+        if st.auto_fork_type is None:
+            if fk is not None:
+                self.fails.append(f"an assignment of '{name}' made with auto-fork off left a snapshot behind")
+            return
+        want = {name} | self.sh.desc(name)
+        if fk is None or not list(fk) or list(fk)[0] != name or set(fk) != want:
+            self.fails.append(f"the snapshot taken at the assignment of '{name}' covers {None if fk is None else sorted(fk)}, "
+                              f"not the variable (first) and its descendants {sorted(want)}")
+            return
+        got = {k: (None if v is None else to_rows(v)) for k, v in fk.items()}
+        if got != {k: before_values[k] for k in got}:
+            self.fails.append(f"the snapshot taken at the assignment of '{name}' does not hold the values from just before it")
+
+    def check_written(self, sid, name, expect, status, what):
+        """an (indexed / accumulating) put of a settable variable: the stored value is the documented out-of-place result;
+        when the current value is unset it is an input error and nothing is assigned"""
+        got = self.states[sid]._values[name]
+        if expect is None:
+            if status != "e:input" or got is not None:
+                self.fails.append(f"{what} on the unset '{name}' gave {status} (value afterwards {'set' if got is not None else 'unset'})")
+        elif status != "ok" or to_rows(got) != expect:
+            self.fails.append(f"{what} on '{name}' gave {status}: the state holds {None if got is None else to_rows(got)}, expected {expect}")
+
+    MASK_DTYPES = ("bool", "bool", "uint8", "int64", "int32", "float32")
+    MASK_LAYOUTS = ("flat", "flat", "flat", "strided", "col-right", "col-left", "full-right", "full-left", "scalar")
 
     def op_revert(self, sid, mask=None):
         torch = self.env["torch"]
@@ -410,10 +587,31 @@ class Runner:
             self.record(f"r:{sid}", sid, status)
             self.tag("revert")
         else:
-            # the subset is "True <=> revert" in any numeric type the code converts with `.to(torch.bool)`
-            dt = self.rng.choice([torch.bool, torch.bool, torch.uint8, torch.int64, torch.int32, torch.float32])
+            # the subset is "True <=> revert" in any numeric type the code converts with `.to(torch.bool)`, in every layout the
+            # documentation allows: one entry per individual broadcast to the right (default), the same as a column / a full-shape
+            # tensor with either broadcasting rule, a strided view, a 0-d tensor when every individual gets the same decision
+            dt = getattr(torch, self.pick(list(self.MASK_DTYPES)))
+            layouts = list(self.MASK_LAYOUTS[:-1]) + (["scalar"] if len(set(mask)) == 1 else ["flat"])
+            layout = self.pick(layouts)
             self.tag("mask-" + str(dt).replace("torch.", ""))
-            status, _ = self.call(lambda: st.revert(torch.tensor([int(b) for b in mask]).to(dt)))
+            self.tag("mask-layout-" + layout)
+            flat = torch.tensor([int(b) for b in mask]).to(dt)
+            kw = {}
+            if layout == "strided":
+                m = torch.stack([flat, (1 - flat.to(torch.int64)).to(dt)], dim=1)[:, 0]
+            elif layout.startswith("col"):
+                m = flat[:, None]
+            elif layout.startswith("full"):
+                m = flat[:, None].expand(len(mask), self.sh.d)
+                if self.pick([True, False]):
+                    m = m.clone()
+            elif layout == "scalar":
+                m = flat[0]
+            else:
+                m = flat
+            if layout.endswith("-left"):
+                kw = dict(right_broadcasting=False)
+            status, _ = self.call(lambda: st.revert(m, **kw))
             self.record(f"rp:{sid}:{''.join('1' if b else '0' for b in mask)}", sid, status)
             self.tag("revert-partial")
         if had_fork and status != "ok":
@@ -421,13 +619,28 @@ class Runner:
         if not had_fork and status != "e:input":
             self.fails.append(f"revert without a fork gave {status}")
 
-    def op_clone(self, src, dst, noauto, keepfork):
+    def op_clone(self, src, dst, noauto, keepfork, how=None):
         st = self.states[src]
-        status, new = self.call(lambda: st.clone(disable_auto_fork=noauto, keep_last_fork=keepfork))
+        if how is None:
+            # copy.deepcopy(state) is a clone that keeps the mode and the pending fork
+            how = self.pick(["clone", "clone", "deepcopy"] if (keepfork and not noauto) else ["clone"])
+        if how == "deepcopy":
+            import copy
+            status, new = self.call(lambda: copy.deepcopy(st))
+        else:
+            status, new = self.call(lambda: st.clone(disable_auto_fork=noauto, keep_last_fork=keepfork))
         if status == "ok":
             self.states[dst] = new
+            # a copy is a copy: same values; the pending fork only if asked for; the mode unless switched off
+            old_fork = None if st._last_fork is None else [(k, None if v is None else to_rows(v)) for k, v in st._last_fork.items()]
+            want = (self.snapshot(src)[0], old_fork if keepfork else None, None if noauto else st.auto_fork_type)
+            if self.snapshot(dst) != want:
+                self.fails.append(f"{how}(disable_auto_fork={noauto}, keep_last_fork={keepfork}) of a state is not a copy of its values"
+                                  " / requested fork / mode")
+        else:
+            self.fails.append(f"{how} of a state failed: {status}")
         self.record(f"c:{src}:{dst}:{int(noauto)}:{int(keepfork)}", dst if status == "ok" else src, status)
-        self.tag("clone")
+        self.tag("clone" if how == "clone" else "clone-deepcopy")
 
     def op_precompute(self, sid):
         st = self.states[sid]
@@ -435,17 +648,99 @@ class Runner:
         self.record(f"pc:{sid}", sid, status)
         self.tag("precompute")
 
+    def fork_type(self, on):
+        return self.env["StateForkType"].REF if on == 1 else (self.env["StateForkType"].COPY if on == 2 else None)
+
+    def mode_code(self, t):
+        return 0 if t is None else (1 if t is self.env["StateForkType"].REF else 2)
+
+    def log_mode(self, on):
+        """the request line only says on / off; REF (1) or COPY (2) goes to the log so that a replay uses the same type"""
+        at = str(len(self.ops))
+        if self.forced is not None and self.forced.get(at) and not self.picks.get(at):
+            on = self.forced[at][0]
+        self.picks.setdefault(at, []).append(on)
+        return on
+
     def op_mode(self, sid, on):
+        """on: 0 = off, 1 = REF, 2 = COPY, "on" = REF or COPY, "any" """
         st = self.states[sid]
-        st.auto_fork_type = self.env["StateForkType"].REF if on == 1 else (self.env["StateForkType"].COPY if on == 2 else None)
+        if on == "any":
+            on = self.rng.choice([0, 1, 2])
+        elif on == "on":
+            on = self.rng.choice([1, 2])
+        on = self.log_mode(on)
+        st.auto_fork_type = self.fork_type(on)
         self.record(f"m:{sid}:{1 if on else 0}", sid, "ok")
         self.tag("mode")
+
+    def op_with_mode(self, sid, on, body, leave_by_exception=False):
+        """`with state.auto_fork(type): body` = switch, body, switch back to whatever the mode was - also when the block is
+        left by an exception."""
+        st = self.states[sid]
+        prev = st.auto_fork_type
+
+        class _Leave(Exception):
+            pass
+        on = self.log_mode(on)
+        default_form = on == 1 and self.pick([True, False])
+        try:
+            with (st.auto_fork() if default_form else st.auto_fork(self.fork_type(on))):
+                self.record(f"m:{sid}:{1 if on else 0}", sid, "ok")
+                body()
+                if leave_by_exception:
+                    raise _Leave()
+        except _Leave:
+            pass
+        if st.auto_fork_type is not prev:
+            self.fails.append(f"the auto_fork context manager left the mode {st.auto_fork_type} instead of restoring {prev}")
+        self.log_mode(self.mode_code(st.auto_fork_type))
+        self.record(f"m:{sid}:{0 if st.auto_fork_type is None else 1}", sid, "ok")
+        self.tag("mode-context" + ("-exception" if leave_by_exception else ""))
 
     def op_clear(self, sid):
         st = self.states[sid]
         status, _ = self.call(lambda: st.clear())
         self.record(f"cl:{sid}", sid, status)
         self.tag("clear")
+
+    # ---- operations that must change nothing (no model op: the next recorded pattern / outputs would show a difference)
+    def snapshot(self, sid):
+        st = self.states[sid]
+        rows = lambda v: None if v is None else to_rows(v)  # noqa
+        return ({k: rows(v) for k, v in st._values.items()},
+                None if st._last_fork is None else [(k, rows(v)) for k, v in st._last_fork.items()],
+                st.auto_fork_type)
+
+    def op_to_device(self, sid):
+        st = self.states[sid]
+        before = self.snapshot(sid)
+        status, _ = self.call(lambda: st.to_device(self.env["torch"].device("cpu")))
+        if status != "ok":
+            self.fails.append(f"to_device(cpu) failed: {status}")
+        elif self.snapshot(sid) != before:
+            self.fails.append("to_device(cpu) changed the values, the pending fork or the fork mode of the state")
+        self.tag("to-device")
+
+    def op_delete(self, sid, name):
+        """removing a key is refused (directly or through the inherited pop / popitem) and changes nothing"""
+        st = self.states[sid]
+        before = self.snapshot(sid)
+        how = self.rng.choice(["del", "del", "popitem"])      # (not logged: this op is not part of the request line)
+        if how == "del":
+            status, _ = self.call(lambda: st.__delitem__(name))
+        else:
+            # popitem reads the first variable of the iteration order before trying to delete it: only when that read is a no-op
+            first = next(iter(st._values))
+            if st._values[first] is None:
+                status, _ = self.call(lambda: st.__delitem__(name))
+            else:
+                status, _ = self.call(lambda: st.popitem())
+        if status != "e:other:NotImplementedError":
+            self.fails.append(f"removal of a variable gave {status}")
+        if self.snapshot(sid) != before or len(st) != len(self.sh.names):
+            self.fails.append("an attempted removal of a variable changed the state")
+        self.tag("delete")
 
     # ---- precondition of a partial revert, decided on the real state
     def partial_revert_allowed(self, sid):
@@ -454,6 +749,8 @@ class Runner:
         if fk is None:
             return None
         keys = list(fk.keys())
+        if not keys or keys[0] not in self.sh.level:
+            return None                  # (malformed snapshot: reported by check_fork at the assignment)
         i = keys[0]
         if self.sh.level[i] != "i":
             return None
@@ -469,6 +766,9 @@ class Runner:
         return f"hist nind={self.sh.nind} d={self.sh.d} p={P} nodes={self.sh.line_nodes()} ops={';'.join(self.ops)}"
 
 
+UNKNOWN = "no_such_variable"
+
+
 def random_history(runner: Runner, length, sampler_like=False):
     rng, sh = runner.rng, runner.sh
     settable = [n for n in sh.names if sh.by_name[n].kind == "s"]
@@ -479,66 +779,117 @@ def random_history(runner: Runner, length, sampler_like=False):
     for n in settable:
         if rng.random() < 0.85:
             runner.op_set(0, n, runner.random_value(n))
+
+    def some_name():
+        return UNKNOWN if rng.random() < 0.03 else rng.choice(sh.names)
+
+    def one_write(sid):
+        """one assignment-like operation on a random variable (used inside mode contexts as well)"""
+        n = rng.choice(settable) if (settable and rng.random() < 0.85) else rng.choice(sh.names)
+        q = rng.random()
+        if q < 0.5:
+            runner.op_set(sid, n, None if rng.random() < 0.07 else runner.random_value(n))
+        elif q < 0.75:
+            runner.op_put_idx(sid, n, rng.random() < 0.6)
+        else:
+            runner.op_put_acc(sid, n)
+        return n
+
     for _ in range(length):
         sid = rng.choice(list(runner.states))
         r = rng.random()
-        if r < 0.30:
-            runner.op_get(sid, rng.choice(sh.names))
-        elif r < 0.45 and settable:
+        if r < 0.28:
+            runner.op_get(sid, some_name())
+        elif r < 0.42 and settable:
             n = rng.choice(settable)
-            runner.op_set(sid, n, None if rng.random() < 0.07 else runner.random_value(n))
-        elif r < 0.50:
-            n = rng.choice(sh.names)  # maybe non-settable
-            runner.op_set(sid, n, runner.random_value(n))
-        elif r < 0.57 and settable:
-            n = rng.choice(settable)
-            if rng.random() < 0.5:
+            q = rng.random()
+            if q < 0.07:
+                runner.op_set(sid, n, None)
+            elif q < 0.17 and runner.states[sid]._values[n] is not None:
+                # the very same numbers again (a new tensor): still an assignment - fork, reset of every dependant
+                runner.op_set(sid, n, to_rows(runner.states[sid]._values[n]))
+            else:
+                runner.op_set(sid, n, runner.random_value(n))
+        elif r < 0.47:
+            n = some_name()  # maybe non-settable, maybe not a variable at all
+            if n == UNKNOWN and rng.random() < 0.5:
+                runner.op_put_acc(sid, n)
+            else:
+                runner.op_set(sid, n, runner.random_value(n) if n != UNKNOWN else [[1]])
+        elif r < 0.55 and settable:
+            n = rng.choice(settable) if rng.random() < 0.85 else rng.choice(sh.names)
+            if rng.random() < 0.6:
                 runner.op_put_idx(sid, n, rng.random() < 0.5)
             else:
                 runner.op_put_acc(sid, n)
-        elif r < 0.66:
+        elif r < 0.63:
             runner.op_revert(sid)
-        elif r < 0.80:
+        elif r < 0.76:
             i = runner.partial_revert_allowed(sid)
             if i is not None:
-                runner.op_revert(sid, [rng.random() < 0.5 for _ in range(sh.nind)])
+                runner.op_revert(sid, random_mask(rng, sh.nind))
             elif ind_settable:
                 # a sampler-like step: propose, read individual-level descendants, partial revert
                 n = rng.choice(ind_settable)
                 if runner.states[sid].auto_fork_type is None:
-                    runner.op_mode(sid, 1)
-                runner.op_set(sid, n, runner.random_value(n))
+                    runner.op_mode(sid, "on")
+                if rng.random() < 0.5 or runner.states[sid]._values[n] is None:
+                    runner.op_set(sid, n, runner.random_value(n))
+                elif rng.random() < 0.5:
+                    runner.op_put_acc(sid, n)
+                else:
+                    runner.op_put_idx(sid, n, True)
                 ok = sorted(sh.rowlocal(n))
                 for k in rng.sample(ok, min(len(ok), rng.randrange(0, 3))):
                     runner.op_get(sid, k)
+                if rng.random() < 0.15:
+                    runner.op_to_device(sid)
                 if runner.partial_revert_allowed(sid) is not None:
-                    runner.op_revert(sid, [rng.random() < 0.5 for _ in range(sh.nind)])
-        elif r < 0.83 and len(settable) >= 2:
+                    runner.op_revert(sid, random_mask(rng, sh.nind))
+        elif r < 0.79 and len(settable) >= 2:
             # macro: forked assignment of A, un-forked assignment of another variable B, revert, read common descendants
             a, b = rng.sample(settable, 2)
-            runner.op_mode(sid, rng.choice([1, 2]))
+            runner.op_mode(sid, "on")
             runner.op_set(sid, a, runner.random_value(a))
             for k in rng.sample(sh.names, min(len(sh.names), rng.randrange(0, 3))):
                 runner.op_get(sid, k)
-            runner.op_mode(sid, 0)
-            runner.op_set(sid, b, runner.random_value(b))
             if rng.random() < 0.5:
-                runner.op_mode(sid, 1)
+                runner.op_mode(sid, 0)
+                runner.op_set(sid, b, runner.random_value(b))
+                if rng.random() < 0.5:
+                    runner.op_mode(sid, 1)
+            else:
+                # the same through the context manager (as the maximisation step does), possibly left by an exception
+                runner.op_with_mode(sid, 0, lambda: runner.op_set(sid, b, runner.random_value(b)), leave_by_exception=rng.random() < 0.3)
             runner.op_revert(sid)
             common = sorted(sh.desc(a) & sh.desc(b)) or sh.names
             for k in rng.sample(common, min(len(common), 3)):
                 runner.op_get(sid, k)
-        elif r < 0.86 and next_sid < 4:
+        elif r < 0.82:
+            # any write inside a temporary mode; afterwards the decision is taken in the restored mode
+            runner.op_with_mode(sid, rng.choice([0, 1, 2]), lambda: one_write(sid), leave_by_exception=rng.random() < 0.25)
+            if rng.random() < 0.6:
+                runner.op_revert(sid)
+        elif r < 0.85 and next_sid < 4:
             runner.op_clone(sid, next_sid, rng.random() < 0.4, rng.random() < 0.5)
             next_sid += 1
-        elif r < 0.90:
-            runner.op_mode(sid, rng.choice([0, 1, 2]))
-        elif r < 0.94:
+        elif r < 0.88:
+            runner.op_mode(sid, "any")
+        elif r < 0.91:
             runner.op_precompute(sid)
-        elif r < 0.96:
-            runner.op_isset(sid, rng.choice(sh.names))
-        elif r < 0.97:
+        elif r < 0.93:
+            if rng.random() < 0.5:
+                runner.op_isset(sid, some_name())
+            else:
+                runner.op_areset(sid, rng.sample(sh.names, min(len(sh.names), rng.randrange(1, 4))))
+        elif r < 0.94:
             runner.op_clear(sid)
+        elif r < 0.96:
+            runner.op_to_device(sid)
+        elif r < 0.97:
+            runner.op_delete(sid, rng.choice(sh.names))
+        elif r < 0.98:
+            runner.op_contains(sid, some_name())
         else:
             runner.op_get(sid, rng.choice(sh.names))
     # final sweep: read everything on every state
@@ -546,6 +897,16 @@ def random_history(runner: Runner, length, sampler_like=False):
         for n in sh.names:
             if rng.random() < 0.5:
                 runner.op_get(sid, n)
+
+
+def random_mask(rng, nind):
+    """per-individual decisions; the uniform ones (everybody / nobody reverted) are boundary cases worth more than chance"""
+    q = rng.random()
+    if q < 0.12:
+        return [True] * nind
+    if q < 0.24:
+        return [False] * nind
+    return [rng.random() < 0.5 for _ in range(nind)]
 
 
 def sampler_history(runner: Runner, steps):
@@ -595,26 +956,80 @@ REAL_KINDS = [
 ]
 
 
-def real_state(env, model_name, kw):
+REAL_KINDS_MORE = [
+    # kinds the first table does not have: clusters (the individual sampler then reads a per-cluster regularity between proposal
+    # and decision), several features without sources, one source, binary outcomes, a joint model with sources
+    ("mixture_logistic", dict(dimension=3, source_dimension=2, n_clusters=2)),
+    ("mixture_logistic", dict(dimension=3, source_dimension=1, n_clusters=3)),
+    ("logistic", dict(dimension=3, source_dimension=0)),
+    ("logistic", dict(dimension=2, source_dimension=1)),
+    ("logistic", dict(dimension=3, source_dimension=2, obs_models="bernoulli")),
+    ("linear", dict(dimension=1)),
+    ("shared_speed_logistic", dict(dimension=3, source_dimension=0)),
+    ("joint", dict(dimension=2, source_dimension=1)),
+]
+COHORTS = ["full", "full", "one", "two-reversed", "missing"]
+
+
+def cohort_frame(model_name, kw, cohort="full", rng=None):
+    """The mock table of the model kind, possibly reduced / altered: "one" = a single individual, "two-reversed" = two individuals
+    listed in reverse order, "missing" = values missing inside visits.  (The mock cohort already has an individual with one visit.)"""
+    import numpy as np
     import pandas as pd
-    from leaspy.io.data import Data, Dataset
-    from leaspy.models import model_factory
     from . import core
-    m = model_factory(model_name, **kw)
     dim = kw.get("dimension", 3)
     if model_name == "joint":
         df = pd.read_csv(core.REPO / "tests/_data/data_mock/data_tiny_joint.csv", sep=";")
         ycols = [c for c in df.columns if c not in ("ID", "TIME", "EVENT_TIME", "EVENT_BOOL")][:dim]
         df = df[["ID", "TIME", "EVENT_TIME", "EVENT_BOOL"] + ycols]
-        data = Data.from_dataframe(df, "joint")
     else:
         df = pd.read_csv(core.REPO / "tests/_data/data_mock/multivariate_data.csv")
-        df = df[["ID", "TIME"] + list(df.columns[2: 2 + dim])]
-        data = Data.from_dataframe(df)
-    ds = Dataset(data)
+        ycols = list(df.columns[2: 2 + dim])
+        df = df[["ID", "TIME"] + ycols]
+    if kw.get("obs_models") == "bernoulli":
+        # (not the median: with exactly half of the outcomes positive the initial log_g is 0 and so is the scale of its sampler)
+        df[ycols] = (df[ycols] > df[ycols].quantile(0.6)).astype(float)
+    ids = list(dict.fromkeys(df["ID"]))
+    # (the joint reader refuses a cohort without any observed event: keep an individual whose event is observed)
+    with_event = list(dict.fromkeys(df.loc[df["EVENT_BOOL"] > 0, "ID"])) if model_name == "joint" else ids
+    if cohort == "one":
+        df = df[df["ID"] == rng.choice(with_event)]
+    elif cohort == "two-reversed":
+        first = rng.choice(with_event)
+        two = [first, rng.choice([i for i in ids if i != first])]
+        rng.shuffle(two)
+        df = pd.concat([df[df["ID"] == two[1]], df[df["ID"] == two[0]]])
+    elif cohort == "missing" and len(ycols) > 1:
+        df = df.copy()
+        for i in range(len(df)):
+            if rng.random() < 0.3:
+                df.iloc[i, df.columns.get_loc(rng.choice(ycols))] = np.nan
+    return df.reset_index(drop=True), ("joint" if model_name == "joint" else "visit")
+
+
+def real_state(env, model_name, kw, cohort="full", rng=None):
+    """A real model initialised on its whole mock cohort, and its state loaded with the data and individual variables of
+    `cohort` (the whole one by default).  Returns (model, state, dataset in the state)."""
+    from leaspy.io.data import Data, Dataset
+    from leaspy.models import model_factory
+    from . import core
+    m = model_factory(model_name, **kw)
+    df, layout = cohort_frame(model_name, kw)
+    ds = Dataset(Data.from_dataframe(df, layout) if layout == "joint" else Data.from_dataframe(df))
     with core.quiet():
         m.initialize(ds)
         st = m.state
+        # (a third cluster can not be initialised from the 5-individual mock cohort: its tau_mean comes out nan; such a
+        # parameter is written by hand - the mean of the other clusters' - as a user would, so that the kind is usable)
+        torch = env["torch"]
+        with st.auto_fork(None):
+            for p_ in m.parameters:
+                v = st[p_]
+                if torch.is_floating_point(v) and bool(torch.isnan(v).any()) and not bool(torch.isnan(v).all()):
+                    st[p_] = torch.where(torch.isnan(v), v[~torch.isnan(v)].mean(), v)
+        if cohort != "full":
+            df2, _ = cohort_frame(model_name, kw, cohort, rng)
+            ds = Dataset(Data.from_dataframe(df2, layout) if layout == "joint" else Data.from_dataframe(df2))
         m.put_data_variables(st, ds)
         m.put_individual_parameters(st, ds)
     return m, st, ds
@@ -666,24 +1081,93 @@ def fractional_weights(env, rng, st):
     return False
 
 
-class RealOracle:
-    def __init__(self, env, model_name, kw, rng):
+class LayoutEnvelope:
+    """Bitwise equality with a from-scratch evaluation presupposes that the recomputation runs the same kernels.  torch.matmul
+    picks its BLAS path by memory layout: once an independent value has been held in a non-contiguous layout (the table form of
+    put_individual_latent_variables hands over the column-major array of the DataFrame - the mixture model initialises its
+    individual variables that way), rows cached from that layout and rows recomputed from the contiguous tensor a later partial
+    revert produces may differ in the last bit.  From then on a read that is not bitwise equal is compared within
+    `LAYOUT_ENVELOPE` (same dtype / shape / weights / non-finite pattern) and counted; before that, and for every other cause,
+    the comparison stays bitwise.  Users: set `self.env`, `self.layout_seen = False`, `self.envelope_reads = 0`."""
+
+    LAYOUT_ENVELOPE = 16 * 2.0 ** -23      # 16 ulp of float32 relative to max(1, largest finite magnitude) of the value
+
+    def note_layouts(self, st):
+        if self.layout_seen:
+            return
+        from leaspy.utils.weighted_tensor import WeightedTensor
+        from leaspy.variables.specs import LinkedVariable
+        for k, var in st.dag.items():
+            v = st._values[k]
+            if v is None or isinstance(var, LinkedVariable):
+                continue
+            t = v.value if isinstance(v, WeightedTensor) else v
+            if t.ndim >= 2 and not t.is_contiguous():
+                self.layout_seen = True
+                return
+
+    def within_layout_envelope(self, got, want):
+        torch = self.env["torch"]
+        from leaspy.utils.weighted_tensor import WeightedTensor
+        if isinstance(got, WeightedTensor) != isinstance(want, WeightedTensor):
+            return False
+        if isinstance(got, WeightedTensor):
+            if (got.weight is None) != (want.weight is None) or (got.weight is not None and not torch.equal(got.weight, want.weight)):
+                return False
+            got, want = got.weighted_value, want.weighted_value
+        if got.shape != want.shape or got.dtype != want.dtype or not torch.is_floating_point(got):
+            return False
+        fin = torch.isfinite(want)
+        if not torch.equal(fin, torch.isfinite(got)) or not torch.equal(torch.nan_to_num(got[~fin], nan=1.5), torch.nan_to_num(want[~fin], nan=1.5)):
+            return False
+        if not bool(fin.any()):
+            return True
+        scale = max(1.0, float(want[fin].abs().max()))
+        return bool(((got[fin].double() - want[fin].double()).abs() <= self.LAYOUT_ENVELOPE * scale).all())
+
+
+class RealOracle(LayoutEnvelope):
+    """Histories on the state of a real model; every read is compared bitwise with a from-scratch evaluation on a fresh State.
+    cohort: which individuals / observations the state holds (see `cohort_frame`)."""
+
+    KINDS = ["pop-accept", "pop-reject", "ind-accept", "ind-reject", "ind-partial", "ind-partial", "clone", "data-mask",
+             # histories through the other public entry points that write a state
+             "param", "param-after-proposal", "unset-ind", "unset-pop", "data-reset", "center", "device", "deepcopy",
+             "put-index", "put-weighted", "mapping", "clear", "save"]
+
+    def __init__(self, env, model_name, kw, rng, cohort="full"):
         self.env, self.rng = env, rng
-        self.model_name, self.kw = model_name, kw
-        self.model, self.st, self.ds = real_state(env, model_name, kw)
+        self.model_name, self.kw, self.cohort = model_name, kw, cohort
+        self.ambient = None
+        quiet = __import__("harness.core", fromlist=["quiet"]).quiet
+        # which variables carry the individual axis is read off the WHOLE mock cohort (5 or 17 individuals: no other axis has
+        # that length), not off a cohort of one or two individuals where the length of the axis says nothing
+        if cohort != "full":
+            _, full_st, full_ds = real_state(env, model_name, kw)
+            with quiet():
+                full_st.precompute_all()
+            n_full = full_ds.n_individuals
+            self.ind_axis = {k for k, v in full_st._values.items()
+                             if v is not None and v.ndim >= 1 and v.shape[0] == n_full and n_full not in tuple(v.shape[1:])}
+        self.model, self.st, self.ds = real_state(env, model_name, kw, cohort, rng)
         self.frac_weights = fractional_weights(env, rng, self.st) if rng.random() < 0.5 else False
-        self.st.auto_fork_type = env["StateForkType"].REF
-        from leaspy.variables.specs import IndividualLatentVariable, PopulationLatentVariable, LinkedVariable
+        self.st.auto_fork_type = env["StateForkType"].REF if rng.random() < 0.7 else env["StateForkType"].COPY
+        from leaspy.variables.specs import DataVariable, IndividualLatentVariable, LinkedVariable, ModelParameter, PopulationLatentVariable
         dag = self.st.dag
         self.pop = list(dag.sorted_variables_by_type.get(PopulationLatentVariable, {}))
         self.ind = list(dag.sorted_variables_by_type.get(IndividualLatentVariable, {}))
+        self.params = list(dag.sorted_variables_by_type.get(ModelParameter, {}))
+        self.data = list(dag.sorted_variables_by_type.get(DataVariable, {}))
         self.linked = [k for k, v in dag.items() if isinstance(v, LinkedVariable)]
         self.n_ind = self.ds.n_individuals
-        with __import__("harness.core", fromlist=["quiet"]).quiet():
+        with quiet():
             self.st.precompute_all()
-        self.ind_axis = {k for k, v in self.st._values.items()
-                         if v is not None and v.ndim >= 1 and v.shape[0] == self.n_ind and self.n_ind not in tuple(v.shape[1:])}
+        if cohort == "full":
+            self.ind_axis = {k for k, v in self.st._values.items()
+                             if v is not None and v.ndim >= 1 and v.shape[0] == self.n_ind and self.n_ind not in tuple(v.shape[1:])}
         self.fails, self.log, self.reads = [], [], 0
+        self.kinds_done = {}
+        self.layout_seen, self.envelope_reads = False, 0
 
     def rowlocal(self, i):
         dag = self.st.dag
@@ -697,31 +1181,60 @@ class RealOracle:
 
     def check_read(self, st, name, ctx):
         torch = self.env["torch"]
+        from leaspy.utils.weighted_tensor import WeightedTensor
         self.reads += 1
-        api = self.rng.choice(["item", "item", "tensor", "tensors"])
+        self.note_layouts(st)
+        api = self.rng.choice(["item", "item", "tensor", "tensors", "mapping-get", "aslists"])
+        sentinel = object()
         acc = {"item": lambda s_: s_[name], "tensor": lambda s_: s_.get_tensor_value(name),
-               "tensors": lambda s_: s_.get_tensor_values([name])[0]}[api]
+               "tensors": lambda s_: s_.get_tensor_values([name])[0], "mapping-get": lambda s_: s_.get(name, sentinel),
+               "aslists": lambda s_: s_._get_value_as_dict_of_lists(name)}[api]
         try:
             got = acc(st)
         except Exception as e:  # noqa
             got = e
+        if got is sentinel:
+            self.fails.append(f"[{ctx}] read of '{name}' through Mapping.get was answered with the caller's default")
+            return
         try:
             want = from_scratch(self.env, st, name)
-            if api != "item" and not isinstance(want, Exception):
-                from leaspy.utils.weighted_tensor import WeightedTensor
+            if api in ("tensor", "tensors", "aslists"):
                 want = want.weighted_value if isinstance(want, WeightedTensor) else want
+            if api == "aslists":
+                # documented export: scalars and vectors as one list, matrices column by column, more axes refused
+                if want.ndim > 2:
+                    want = ValueError("more than 2 axes")
+                elif want.ndim == 2 and want.shape[1] > 1:
+                    want = {f"{name}_{i}": want[:, i].tolist() for i in range(want.shape[1])}
+                else:
+                    want = {name: want.reshape(-1).tolist()}
         except Exception as e:  # noqa
             want = e
         if isinstance(got, Exception) or isinstance(want, Exception):
             if type(got) is not type(want):
-                self.fails.append(f"[{ctx}] read of '{name}': got {type(got).__name__}, from scratch {type(want).__name__}")
+                self.fails.append(f"[{ctx}] read of '{name}' ({api}): got {type(got).__name__}, from scratch {type(want).__name__}")
             return
-        if not values_equal(torch, got, want):
-            self.fails.append(f"[{ctx}] stale or corrupted read of '{name}' (differs bitwise from a from-scratch evaluation)")
+        if api == "aslists":
+            same = list(got) == list(want) and all(
+                len(a) == len(b) and all((x == y) or (x != x and y != y) for x, y in zip(a, b)) for a, b in zip(got.values(), want.values()))
+        else:
+            same = values_equal(torch, got, want)
+        if not same and self.layout_seen:
+            g2, w2 = (st[name], from_scratch(self.env, st, name)) if api == "aslists" else (got, want)
+            if self.within_layout_envelope(g2, w2):
+                self.envelope_reads += 1
+                return
+        if not same:
+            self.fails.append(f"[{ctx}] stale or corrupted read of '{name}' ({api}: differs bitwise from a from-scratch evaluation)")
 
-    def propose(self, name, extreme=False):
+    def read_some(self, st, ctx, k=5, pool=None):
+        pool = list(st.dag.sorted_variables_names) if pool is None else pool
+        for n in self.rng.sample(pool, min(len(pool), k)):
+            self.check_read(st, n, ctx)
+
+    def propose(self, name, extreme=False, st=None):
         torch = self.env["torch"]
-        cur = self.st[name]
+        cur = (st or self.st)[name]
         scale = 0.05 if not extreme else self.rng.choice([30.0, 95.0, 1e3])
         noise = torch.tensor([[self.rng.gauss(0, 1) for _ in range(cur[0].numel() if cur.ndim > 1 else 1)]
                               for _ in range(cur.shape[0] if cur.ndim >= 1 else 1)], dtype=cur.dtype).reshape(cur.shape)
@@ -732,15 +1245,317 @@ class RealOracle:
             new = torch.where(keep, cur + 0.05 * noise, new)
         return new
 
+    def new_parameter_value(self, name, extreme):
+        torch, rng = self.env["torch"], self.rng
+        cur = self.st[name]
+        if extreme:
+            # boundary values of a parameter: what an update rule yields on a collapsed / diverged iteration
+            return torch.full_like(cur, rng.choice([0.0, float("inf"), float("nan"), 1e-30, 1e30]))
+        g = torch.tensor([rng.gauss(0, 1) for _ in range(max(cur.numel(), 1))], dtype=cur.dtype).reshape(cur.shape)
+        if name.endswith("_std") or name in ("noise_std", "probs"):
+            return cur * torch.exp(0.1 * g)
+        return cur + 0.1 * g
+
+    # ---- histories through the other entry points (each returns after its own reads)
+    def other_kind(self, kind, ctx, extreme):
+        torch, rng, st, model = self.env["torch"], self.rng, self.st, self.model
+        LIE = self.env["LIE"]
+        from leaspy.utils.weighted_tensor import WeightedTensor
+        quiet = __import__("harness.core", fromlist=["quiet"]).quiet
+        if kind in ("param", "param-after-proposal"):
+            # a model parameter is rewritten the way the maximisation step does it (auto-fork switched off for the block);
+            # a proposal pending at that moment can no longer be rejected
+            pending = kind == "param-after-proposal"
+            if pending:
+                var = rng.choice(self.ind + self.pop)
+                st[var] = self.propose(var)
+                self.read_some(st, ctx + " after proposal", 2, sorted(self.rowlocal(var)) if var in self.ind else None)
+            ps = rng.sample(self.params, min(len(self.params), rng.randrange(1, 3)))
+            sane = {p: st[p].clone() for p in ps}
+            new = {p: self.new_parameter_value(p, extreme) for p in ps}
+            mode_before = st.auto_fork_type
+            with st.auto_fork(None):
+                if rng.random() < 0.5:
+                    for p, v in new.items():
+                        st[p] = v
+                else:
+                    st.update(new)
+            if st.auto_fork_type is not mode_before:
+                self.fails.append(f"[{ctx}] the fork mode is {st.auto_fork_type} after an auto_fork(None) block, it was {mode_before}")
+            for p, v in new.items():
+                if not values_equal(torch, st[p], v):
+                    self.fails.append(f"[{ctx}] parameter '{p}' does not hold the assigned value")
+            self.read_some(st, ctx + " after the parameter update", 5)
+            self.read_some(st, ctx + " after the parameter update", 3, list(set().union(*[st.dag.sorted_children[p] for p in ps])))
+            if pending or rng.random() < 0.5:
+                try:
+                    st.revert()
+                    self.fails.append(f"[{ctx}] revert() after an assignment made with auto-fork off did not raise")
+                except LIE:
+                    pass
+                self.read_some(st, ctx + " after the refused revert", 5)
+            if extreme:
+                with st.auto_fork(None):
+                    st.update(sane)
+                self.read_some(st, ctx + " after the parameters were put back", 4)
+        elif kind == "unset-ind":
+            saved = {v: st[v].clone() for v in self.ind}
+            which = rng.choice(["all", "one"])
+            if which == "all":
+                st.put_individual_latent_variables(None)
+            else:
+                st[rng.choice(self.ind)] = None
+            self.read_some(st, ctx + " individual variables unset", 6)
+            self.read_some(st, ctx + " individual variables unset", 2, self.ind)
+            how = rng.choice(["mode", "mean", "samples", "model", "table", "saved"])
+            try:
+                with quiet():
+                    if how in ("mode", "mean", "samples"):
+                        st.put_individual_latent_variables(how, n_individuals=self.n_ind)
+                    elif how == "model":
+                        model.put_individual_parameters(st, self.ds)
+                    elif how == "table":
+                        import pandas as pd
+                        cols = {"tau": saved["tau"][:, 0].tolist(), "xi": saved["xi"][:, 0].tolist()}
+                        if "sources" in saved:
+                            for j in range(saved["sources"].shape[1]):
+                                cols[f"sources_{j}"] = saved["sources"][:, j].tolist()
+                        st.put_individual_latent_variables(df=pd.DataFrame(cols))
+            except Exception:  # noqa  (e.g. a prior without closed-form mode): not this property's matter, put the old values back
+                how = "saved"
+            for v in self.ind:
+                if how == "saved" or not st.is_variable_set(v):
+                    st[v] = saved[v]
+            self.read_some(st, ctx + f" individual variables set again ({how})", 6)
+        elif kind == "unset-pop":
+            saved = {v: st[v].clone() for v in self.pop}
+            if rng.random() < 0.5:
+                st.put_population_latent_variables(None)
+            else:
+                st[rng.choice(self.pop)] = None
+            self.read_some(st, ctx + " population variables unset", 6)
+            how = rng.choice(["mode", "mean", "saved"])
+            try:
+                if how != "saved":
+                    st.put_population_latent_variables(how)
+            except Exception:  # noqa
+                how = "saved"
+            for v in self.pop:
+                if how == "saved" or not st.is_variable_set(v):
+                    st[v] = saved[v]
+            self.read_some(st, ctx + f" population variables set again ({how})", 6)
+        elif kind == "data-reset":
+            model.reset_data_variables(st)
+            self.read_some(st, ctx + " data unset", 5)
+            self.read_some(st, ctx + " data unset", 2, self.data)
+            model.put_data_variables(st, self.ds)
+            if self.frac_weights:
+                fractional_weights(self.env, rng, st)
+            self.read_some(st, ctx + " data set again", 6)
+        elif kind == "center":
+            f = getattr(model, "_center_xi_realizations", None)
+            if f is not None and st.is_variable_set("xi"):
+                with st.auto_fork(None):
+                    f(st)
+                self.read_some(st, ctx, 8)
+        elif kind in ("device", "deepcopy"):
+            # a proposal is pending; the state is moved to (the same) device / deep-copied; then the decision is taken
+            var = rng.choice(self.ind + self.pop)
+            old = st[var].clone()
+            self.read_some(st, ctx + " before", 2)
+            prop = self.propose(var, extreme)
+            st[var] = prop
+            self.read_some(st, ctx + " after proposal", 2, sorted(self.rowlocal(var)) if var in self.ind else None)
+            target = st
+            if kind == "device":
+                if rng.random() < 0.5:
+                    st.to_device(torch.device("cpu"))
+                else:
+                    model.move_to_device(torch.device("cpu"))
+            else:
+                import copy
+                target = copy.deepcopy(st)
+            if var in self.ind and rng.random() < 0.5:
+                rejected = torch.tensor([rng.random() < 0.5 for _ in range(self.n_ind)])
+                target.revert(rejected)
+                want = torch.where(rejected.reshape((-1,) + (1,) * (old.ndim - 1)), old, prop)
+            else:
+                target.revert()
+                want = old
+            if not values_equal(torch, target[var], want):
+                self.fails.append(f"[{ctx}] '{var}' is not what the decision makes it")
+            self.read_some(target, ctx + " after the decision", 6)
+            if target is not st:
+                if not values_equal(torch, st[var], prop):
+                    self.fails.append(f"[{ctx}] a decision on a deep copy changed the original")
+                self.read_some(st, ctx + " original of the deep copy", 3)
+                st.revert()
+        elif kind == "put-index":
+            # proposals the way the population samplers make them: out-of-place accumulation at one coordinate given as plain
+            # integers, or at one leading index (a whole row)
+            var = rng.choice(self.pop)
+            cur = st[var]
+            old = cur.clone()
+            full = tuple(rng.randrange(n) for n in cur.shape)
+            idx = full if (cur.ndim < 2 or rng.random() < 0.5) else full[:1]
+            change = torch.tensor([rng.gauss(0, 0.05) for _ in range(max(1, int(torch.tensor(cur.shape[len(idx):]).prod()) if cur.ndim > len(idx) else 1))],
+                                  dtype=cur.dtype).reshape(cur.shape[len(idx):])
+            if rng.random() < 0.15:
+                change = torch.zeros_like(change)
+            acc = rng.random() < 0.8
+            st.put(var, change, indices=idx, accumulate=acc)
+            want = old.clone()
+            want[idx] = (old[idx] + change) if acc else change
+            if not values_equal(torch, st[var], want):
+                self.fails.append(f"[{ctx}] put('{var}', indices={idx}, accumulate={acc}) does not hold the documented value")
+            if not values_equal(torch, cur, old):
+                self.fails.append(f"[{ctx}] put('{var}', indices={idx}) modified the previous value in place")
+            self.read_some(st, ctx + " after the indexed put", 4)
+            if rng.random() < 0.5:
+                st.revert()
+                if not values_equal(torch, st[var], old):
+                    self.fails.append(f"[{ctx}] '{var}' differs from its value before the rejected indexed put")
+            self.read_some(st, ctx + " after the decision", 6)
+        elif kind == "put-weighted":
+            # indexed put on a weighted (masked) variable: values change out of place, weights stay
+            name = rng.choice([d for d in self.data if isinstance(st._values.get(d), WeightedTensor)] or [None])
+            if name is not None:
+                cur = st[name]
+                k = rng.randrange(1, 4)
+                idx = tuple([rng.randrange(n) for _ in range(k)] for n in cur.shape)
+                vals = torch.tensor([rng.random() for _ in range(k)], dtype=cur.value.dtype)
+                old_v, old_w = cur.value.clone(), None if cur.weight is None else cur.weight.clone()
+                st.put(name, vals, indices=idx, accumulate=False)
+                new = st[name]
+                want = old_v.index_put(tuple(torch.tensor(i) for i in idx), vals)
+                if not (isinstance(new, WeightedTensor) and torch.equal(torch.nan_to_num(new.value), torch.nan_to_num(want))
+                        and ((new.weight is None) == (old_w is None)) and (old_w is None or torch.equal(new.weight, old_w))):
+                    self.fails.append(f"[{ctx}] indexed put on the weighted '{name}' does not give the documented value / keeps the weights")
+                if not torch.equal(torch.nan_to_num(cur.value), torch.nan_to_num(old_v)):
+                    self.fails.append(f"[{ctx}] indexed put on the weighted '{name}' modified the previous value in place")
+                self.read_some(st, ctx + " after the put", 4)
+                if rng.random() < 0.6:
+                    st.revert()
+                self.read_some(st, ctx + " after the decision", 6)
+        elif kind == "clear":
+            # clear(): hyper-parameters back to their canonical value, everything else unset, no fork; then every independent
+            # value is assigned again (auto-fork off, as a loader does)
+            from leaspy.variables.specs import Hyperparameter, LinkedVariable
+            saved = {k: st._values[k] for k, v in st.dag.items() if not isinstance(v, (Hyperparameter, LinkedVariable))}
+            if rng.random() < 0.5:
+                v = rng.choice(self.ind + self.pop)
+                st[v] = self.propose(v)               # a pending proposal does not survive a clear
+            st.clear()
+            if st._last_fork is not None:
+                self.fails.append(f"[{ctx}] a fork survives clear()")
+            self.read_some(st, ctx + " after clear()", 6)
+            try:
+                st.revert()
+                self.fails.append(f"[{ctx}] revert() after clear() did not raise")
+            except LIE:
+                pass
+            with st.auto_fork(None):
+                for k in rng.sample(list(saved), len(saved)):
+                    if saved[k] is not None:
+                        st[k] = saved[k]
+                    if rng.random() < 0.2:
+                        self.read_some(st, ctx + " while the values are assigned again", 2)
+            self.read_some(st, ctx + " after the values were assigned again", 8)
+        elif kind == "save":
+            # State.save: the tracked variables go to <name>.csv (one row per call, the iteration first): what is written is a
+            # read like any other
+            import csv
+            import tempfile
+            pool = [n for n in st.dag.sorted_variables_names]
+            chosen = rng.sample(pool, 3)
+            prev_tracked = set(st.tracked_variables)
+            st.untrack_variables(list(prev_tracked))
+            st.track_variables(chosen + ["not_a_variable"])
+            try:
+                if rng.random() < 0.5:
+                    v = rng.choice(self.ind + self.pop)
+                    st[v] = self.propose(v)
+                    if rng.random() < 0.5:
+                        st.revert()
+                with tempfile.TemporaryDirectory(prefix="verif-c01-") as tmp:
+                    it = rng.randrange(0, 1000)
+                    wants = {}
+                    for n in chosen:
+                        try:
+                            w = from_scratch(self.env, st, n)
+                            w = w.weighted_value if isinstance(w, WeightedTensor) else w
+                            wants[n] = w
+                        except Exception as e:  # noqa
+                            wants[n] = e
+                    savable = all(not isinstance(w, Exception) and w.ndim <= 2 for w in wants.values())
+                    try:
+                        st.save(tmp, iteration=it)
+                        err = None
+                    except Exception as e:  # noqa
+                        err = e
+                    if savable and err is not None:
+                        self.fails.append(f"[{ctx}] save() of {chosen} raised {type(err).__name__}: {err}")
+                    elif not savable and err is None:
+                        self.fails.append(f"[{ctx}] save() of {chosen} succeeded although one of them can not be evaluated / exported")
+                    elif savable:
+                        import os
+                        for n, w in wants.items():
+                            self.reads += 1
+                            cols = {n: w.reshape(-1).tolist()} if not (w.ndim == 2 and w.shape[1] > 1) else \
+                                {f"{n}_{i}": w[:, i].tolist() for i in range(w.shape[1])}
+                            for cn, vals in cols.items():
+                                path = os.path.join(tmp, f"{cn}.csv")
+                                rows = list(csv.reader(open(path))) if os.path.exists(path) else []
+                                got = [float(x) for x in rows[-1]] if rows else None
+                                exp = [float(it)] + [float(x) for x in vals]
+                                if got is None or len(got) != len(exp) or any(not (a == b or (a != a and b != b)) for a, b in zip(got, exp)):
+                                    self.fails.append(f"[{ctx}] save(): the row written for '{cn}' is not the iteration followed by the "
+                                                      "from-scratch value")
+            finally:
+                st.untrack_variables(chosen + ["not_a_variable"])
+                st.track_variables(list(prev_tracked))
+        elif kind == "mapping":
+            # the inherited mapping interface: update() = assignments in order; items() / values() = reads of every variable
+            vs = rng.sample(self.ind + self.pop, 2)
+            st.update({v: self.propose(v) for v in vs})
+            if rng.random() < 0.5:
+                st.revert()                      # only the last assignment of the update can be undone
+            try:
+                got = dict(st.items()) if rng.random() < 0.5 else dict(zip(st.keys(), st.values()))
+            except Exception as e:  # noqa
+                got = e
+            if isinstance(got, Exception):
+                try:
+                    for n in st.dag:
+                        from_scratch(self.env, st, n)
+                    self.fails.append(f"[{ctx}] items() raised {type(got).__name__} although every variable can be evaluated")
+                except Exception:  # noqa
+                    pass
+            else:
+                for n in rng.sample(list(got), min(len(got), 8)):
+                    self.reads += 1
+                    w = from_scratch(self.env, st, n)
+                    if values_equal(torch, got[n], w):
+                        continue
+                    self.note_layouts(st)
+                    if self.layout_seen and self.within_layout_envelope(got[n], w):
+                        self.envelope_reads += 1
+                        continue
+                    self.fails.append(f"[{ctx}] items()['{n}'] differs bitwise from a from-scratch evaluation")
+
     def run(self, steps):
         torch, rng, st = self.env["torch"], self.rng, self.st
         names = list(st.dag.sorted_variables_names)
         for step in range(steps):
-            kind = rng.choice(["pop-accept", "pop-reject", "ind-accept", "ind-reject", "ind-partial", "ind-partial", "clone", "data-mask"])
+            kind = rng.choice(self.KINDS)
             extreme = rng.random() < 0.35
-            ctx = f"{self.model_name} step {step} {kind}{' extreme' if extreme else ''}"
+            ctx = f"{self.model_name} {self.cohort} step {step} {kind}{' extreme' if extreme else ''}"
             self.log.append(ctx)
+            self.kinds_done[kind] = self.kinds_done.get(kind, 0) + 1
             try:
+                if kind not in self.KINDS[:8]:
+                    self.other_kind(kind, ctx, extreme)
+                    continue
                 if kind == "clone":
                     c = st.clone(disable_auto_fork=rng.random() < 0.5, keep_last_fork=rng.random() < 0.5)
                     v = rng.choice(self.ind + self.pop)
@@ -803,3 +1618,105 @@ class RealOracle:
             except Exception as e:  # noqa
                 self.fails.append(f"[{ctx}] operation raised {type(e).__name__}: {e}")
                 break
+
+
+# ---------------------------------------------------------------------------------------------
+# read spy: the property's predicate on the reads the public API itself performs (fit, personalisation, estimation)
+# ---------------------------------------------------------------------------------------------
+class ReadSpy(LayoutEnvelope):
+    """Call-through wrapper on State.__getitem__: while it is installed, every `stride`-th read of a derived variable - on
+    whatever State object the library works on (the model's, a clone, a per-individual copy) - is compared bitwise with a
+    from-scratch evaluation on a fresh State holding the same independent values.  The library chooses the histories (sampler
+    sweeps in random order, partial reverts, parameter updates with auto-fork off, re-centring, clones, unset data ...)."""
+
+    def __init__(self, env, stride):
+        self.env, self.stride = env, max(1, stride)
+        self.count = self.checked = 0
+        self.fails, self.busy = [], False
+        self.states = set()
+        self.layout_seen, self.envelope_reads = False, 0
+
+    def __enter__(self):
+        State, torch = self.env["State"], self.env["torch"]
+        from leaspy.variables.specs import LinkedVariable
+        self.orig = State.__getitem__
+        spy = self
+
+        def getitem(st, name, _orig=self.orig):
+            value = _orig(st, name)
+            if spy.busy:
+                return value
+            spy.count += 1
+            spy.states.add(id(st))
+            spy.note_layouts(st)
+            if spy.count % spy.stride or len(spy.fails) > 5 or not isinstance(st.dag[name], LinkedVariable):
+                return value
+            spy.busy = True
+            try:
+                want = from_scratch(spy.env, st, name)
+                spy.checked += 1
+                if values_equal(torch, value, want):
+                    pass
+                elif spy.layout_seen and spy.within_layout_envelope(value, want):
+                    spy.envelope_reads += 1
+                else:
+                    spy.fails.append(f"read #{spy.count} of '{name}' differs bitwise from a from-scratch evaluation on the independent "
+                                     "values the state held at that moment")
+            except Exception as e:  # noqa
+                spy.fails.append(f"read #{spy.count} of '{name}' succeeded but the from-scratch evaluation raised {type(e).__name__}: {e}")
+            finally:
+                spy.busy = False
+            return value
+        State.__getitem__ = getitem
+        return self
+
+    def __exit__(self, *exc):
+        self.env["State"].__getitem__ = self.orig
+        return False
+
+
+def api_read_spy(env, rng, model_name, kw, cohort, stride):
+    """One model kind through the public API with the read spy on: fit (MCMC-SAEM, a few iterations, samplers / annealing varied),
+    then sampling-based and optimiser-based personalisation and an estimation on the same object.  Returns (fails, stats)."""
+    from leaspy.io.data import Data
+    from leaspy.models import model_factory
+    from . import core
+    df, layout = cohort_frame(model_name, kw, cohort, rng)
+    df["ID"] = df["ID"].astype(str)          # (individual parameters are keyed by string identifiers)
+    data = Data.from_dataframe(df, layout) if layout == "joint" else Data.from_dataframe(df)
+    model = model_factory(model_name, **kw)
+    n_iter = rng.choice([3, 4, 6])
+    fit_kw = dict(n_iter=n_iter, n_burn_in_iter=rng.randrange(0, n_iter), seed=rng.randrange(0, 1000), progress_bar=False,
+                  sampler_pop=rng.choice(["Gibbs", "FastGibbs", "Metropolis-Hastings"]))
+    if rng.random() < 0.4:
+        fit_kw["annealing"] = dict(do_annealing=True, n_plateau=2, n_iter=2, initial_temperature=3.0)
+    if rng.random() < 0.4:
+        fit_kw["sampler_ind_params"] = dict(acceptation_history_length=rng.choice([1, 2]), mean_acceptation_rate_target_bounds=[0.2, 0.4],
+                                            adaptive_std_factor=0.1)
+    stats, fails = {"fit": dict(fit_kw)}, []
+    with ReadSpy(env, stride) as spy:
+        stage = "fit"
+        try:
+            with core.quiet():
+                model.fit(data, "mcmc_saem", **fit_kw)
+                stage = "personalize"
+                algo = rng.choice(["mean_posterior", "mode_posterior", "scipy_minimize"])
+                stats["personalize"] = algo
+                pkw = dict(seed=rng.randrange(0, 1000), progress_bar=False)
+                if algo != "scipy_minimize":
+                    pkw.update(n_iter=rng.choice([3, 5]), n_burn_in_iter=1)
+                ips = model.personalize(data, algo, **pkw)
+                stage = "estimate"
+                ids = list(dict.fromkeys(df["ID"]))
+                some = ids[0]
+                ages = sorted(float(t) for t in df.loc[df["ID"] == some, "TIME"])[:2]
+                model.estimate({some: [ages[0] - 1.0] + ages}, ips)
+        except Exception as e:  # noqa
+            from leaspy.exceptions import LeaspyConvergenceError
+            if isinstance(e, LeaspyConvergenceError):
+                stats["did_not_converge"] = stage       # a variance collapsed on the tiny cohort: not this property's matter
+            else:
+                stats["aborted"] = f"{stage}: {type(e).__name__}: {e}"[:300]
+    fails = [f"[{model_name} {cohort}, {stats.get('fit')}, {stats.get('personalize')}] {f}" for f in spy.fails]
+    stats.update(reads=spy.count, checked=spy.checked, states=len(spy.states), within_layout_envelope=spy.envelope_reads)
+    return fails, stats
